@@ -68,6 +68,17 @@ CHECKS = {
          "per-stage simulated costs and drawn budgets, checking clamps, yield placement and reason precedence.",
     note="Liveness is a step bound over finite histories; T1 caps on single-graph worlds.",
     technique="deterministic simulation: simulated scheduler/slice clocks with scripted stage costs, invariant + bounded-liveness checks over seeded histories"),
+ "C18": dict(level="exploration", ref="4/C18",
+    text="Histories over observe/tick/merge/split/promote and snapshot+restart (optionally killed mid-write) under validator-accepted graph "
+         "settings, with invariants (clamp bounds, decay monotonicity and exact floor drops, canonical keys, pair caps, top-k membership, "
+         "maintenance non-destructiveness, promotion idempotence) after every op, a shuffled-items twin and a gate-off twin; plus whole turns with graph.enabled.",
+    note="Clamp bound asserted for co-activation edges; restart equality up to the documented 6-decimal rounding.",
+    technique="deterministic simulation: seeded operation histories incl. crash/restart through the real snapshot path, invariant checks + twins"),
+ "C19": dict(level="exploration", ref="4/C19",
+    text="Turns over every gate combination, both back ends, caps, token limits, a scripted simulated cost of the reflect call around the wall "
+         "budget and faults in compute/write/index/telemetry; per-turn twin with reflection off from the same deep-copied pre-state; other-wall-clock twin for ids/timestamps.",
+    note="Stage caches are off so the in-process twin cannot be served from the main run's cache; LLM completions are served by the real fixture adapter.",
+    technique="deterministic simulation: simulated wall budget + fault sites + per-turn differential twin"),
 }
 
 NA = {
